@@ -26,7 +26,8 @@ ASSUMPTIONS = [
     "termination is a bounded-progress restatement: read/recv calls <= 3*len+16(+faults), decode calls <= 3*bits+70",
 ]
 GATES = ["ctor_calls", "parse_calls", "stream_runs", "exc:RTCMMessageError", "exc:RTCMParseError",
-         "exc:RTCMStreamError", "exc:RTCMTypeError", "iter_mode0", "iter_mode1", "read_mode2"]
+         "exc:RTCMStreamError", "exc:RTCMTypeError", "iter_mode0", "iter_mode1", "read_mode2", "prefix_enumerations",
+         "long_error_runs"]
 
 
 def _ctor(ctx, payload, labelmsm=1, tag="ctor"):
@@ -215,6 +216,46 @@ def _stream(ctx, data, plan, mode, validate, pseed, backend, bparam):
                 "faults": len(plan), "head_hex": data[:32].hex()}, limit=1)
 
 
+def _plain_stream(ctx, data, mode, validate, kind, label):
+    """Iterate a finite in-memory / buffered stream object of the standard library (has peek, seek, readinto...)."""
+    import io
+
+    from pyrtcm import RTCMReader
+
+    libs = common.lib_errors()
+    params = {"kind": "plain", "data": data.hex(), "mode": mode, "validate": validate, "stream": kind, "label": label}
+    stream = io.BytesIO(data) if kind == "bytesio" else io.BufferedReader(io.BytesIO(data), buffer_size=16)
+    ctx.hit("plain_stream_runs")
+    try:
+        rdr = RTCMReader(stream, validate=validate, quitonerror=mode, errorhandler=(lambda e: None))
+        guard = len(data) + 16
+        if mode in (0, 1):
+            for _ in rdr:
+                guard -= 1
+                if guard < 0:
+                    ctx.violation("no-termination", f"{label}: iterator delivers more items than bytes", params)
+                    return
+        else:
+            while guard > 0:
+                guard -= 1
+                try:
+                    raw, parsed = rdr.read()
+                except libs as e:
+                    ctx.hit("exc:" + type(e).__name__)
+                    continue
+                if raw is None and parsed is None:
+                    break
+            else:
+                ctx.violation("no-termination", f"{label}: read() keeps returning", params)
+                return
+    except Exception as e:
+        ctx.violation("iterator-raised" if mode in (0, 1) else "foreign-exception-reader",
+                      f"{label} ({kind}, mode {mode}, {len(data)} bytes ending ..{data[-4:].hex()}): "
+                      f"{type(e).__name__}: {e}", params)
+        return
+    ctx.case(b"plain" + data + bytes([mode, validate]) + kind.encode(), True)
+
+
 def run(ctx):
     common.quiet_logging()
     monitors.install_field_monitor()
@@ -285,6 +326,29 @@ def run(ctx):
             for v in (0, 1):
                 _parse(ctx, buf, v, rng.choice((1, 2)))
         ctx.hit("parse_lengths_enumerated")
+    # (c2) EVERY prefix of small streams is itself a finite stream (end of data at every offset), over
+    #      standard-library stream objects (BytesIO, BufferedReader: peek / seek / readinto available)
+    for it in range(ctx.n(40, 1200)):
+        data, _ = c01.make_stream(rng, small=True)
+        data = data[:260]
+        mode = it % 3
+        for cut in range(0, len(data) + 1):
+            _plain_stream(ctx, data[:cut], mode, (it + cut) % 2, ("bytesio", "buffered")[cut % 2], "prefix")
+        ctx.hit("prefix_enumerations")
+    # (c3) long uninterrupted runs of errors (thousands of false syncs / bad-CRC frames) before a good frame
+    for it in range(ctx.n(16, 200)):
+        good = refcrc.frame(streams.rand_defined_payload(rng))
+        style = it % 3
+        n = rng.choice((1100, 1500, 3000))
+        if style == 0:
+            run_ = b"\xd3\xff" * n
+        elif style == 1:
+            fr = refcrc.frame(streams.rand_unknown_payload(rng, 2))
+            run_ = (fr[:-1] + bytes([fr[-1] ^ 1])) * n
+        else:
+            run_ = b"".join(rng.choice((b"\xd3\x7f", b"\xb5\x00", b"$x", b"\xd3\xd3")) for _ in range(n))
+        _plain_stream(ctx, run_ + good, it % 2, 1, "bytesio", "long-error-run")
+        ctx.hit("long_error_runs")
     # (d) hostile finite streams with faults
     for i in range(ctx.n(2400, 120000)):
         data, _ = c01.make_stream(rng, small=rng.random() < 0.5)
@@ -331,6 +395,8 @@ def replay(ctx, p):
         _ctor(ctx, bytes.fromhex(p["payload"]), p.get("labelmsm", 1))
     elif p["kind"] == "parse":
         _parse(ctx, bytes.fromhex(p["buf"]), p["validate"], p.get("labelmsm", 1))
+    elif p["kind"] == "plain":
+        _plain_stream(ctx, bytes.fromhex(p["data"]), p["mode"], p["validate"], p["stream"], p.get("label", "replay"))
     else:
         _stream(ctx, bytes.fromhex(p["data"]), {int(k): v for k, v in p["plan"].items()}, p["mode"],
                 p["validate"], p["pseed"], p["backend"], p["bparam"])
